@@ -415,3 +415,49 @@ func Bits(t *rapid.T, n int, label string) int {
 	}
 	return v
 }
+
+// Fuzz exposes a property as a native (coverage-guided) fuzz target: Go's fuzzer mutates the
+// byte stream that rapid's generators draw from (rapid.MakeFuzz), so the same generators and
+// the same oracle are explored under coverage feedback from the code under test. Failing
+// cases are written as the usual JSON replay files.
+func Fuzz[C any](f *testing.F, p Prop[C]) {
+	// rapid consumes 8 bytes of input per primitive draw, so useful inputs are long: seed the
+	// corpus with a few pseudo-random buffers (fixed LCG, no run-time randomness)
+	for _, seed := range []uint64{1, 0x9e3779b97f4a7c15, 42} {
+		buf := make([]byte, 24<<10)
+		x := seed
+		for i := range buf {
+			x = x*6364136223846793005 + 1442695040888963407
+			buf[i] = byte(x >> 56)
+		}
+		f.Add(buf)
+	}
+	inner := rapid.MakeFuzz(func(rt *rapid.T) {
+		c := p.Gen(rt)
+		v := guardedFuzz(p, c)
+		if v.Fail != "" {
+			writeFail(p.ID, c, v)
+			rt.Fatalf("%s", v.Fail)
+		}
+	})
+	f.Fuzz(func(t *testing.T, in []byte) {
+		fuzzT = t // property bodies that need a *testing.T (synctest) get the worker's
+		inner(t, in)
+	})
+}
+
+var fuzzT *testing.T
+
+func guardedFuzz[C any](p Prop[C], c C) (v *Verdict) {
+	defer func() {
+		if r := recover(); r != nil {
+			stack := string(debug.Stack())
+			if !strings.Contains(stack, "github.com/tmaxmax/go-sse") {
+				panic(r)
+			}
+			v = &Verdict{}
+			v.Failf("panic", "panic in the code under test: %v\n%s", r, trimStack(stack))
+		}
+	}()
+	return p.Check(fuzzT, c)
+}
